@@ -241,11 +241,15 @@ def build(kind: str, variant: str, init: Dict[str, Any], wseed: int):
             _randomize(net, gen)
             net.train(train)
             m = SuperNet(net, cost=cs, input_shape=net.shape, full_cost=fc)
-            # SuperNet.__init__ does not restore the mode the caller's network was in (conversion forces eval);
-            # the scenario's initial mode is therefore set explicitly through the public call
-            m.train(train)
+            # SuperNet.__init__ does not restore the mode the caller's network was in (conversion forces eval, the
+            # wrapper's own flag stays True); unless the scenario asks for the wrapper exactly as constructed
+            # (init["raw"]), its initial mode is set explicitly through the public call
+            if not init.get("raw", False):
+                m.train(train)
         else:
             raise MachineryError(f"kind {kind}")
+    if "setmode" in init:
+        m.train(bool(init["setmode"]))
     x = torch.randn((4,) + tuple(net.shape), generator=gen)
     return m, x
 
@@ -479,7 +483,7 @@ def export_fingerprint(e: nn.Module, x: torch.Tensor, ids: Ids) -> Dict[str, Any
 # ----------------------------------------------------------------------------------------------
 # C18: executor of call sequences (full run + run with the observer calls erased)
 # ----------------------------------------------------------------------------------------------
-OBSERVER_OPS = ("export", "summary", "cost", "getcost")
+OBSERVER_OPS = ("export", "summary", "cost", "getcost", "inspect")
 NO_RET = {"k": "none", "a": 0, "b": 0, "c": 0}
 
 
@@ -605,9 +609,16 @@ def observe(kind: str, m, x: torch.Tensor, ids: Ids, cs: str) -> Dict[str, Any]:
     o["nbt"] = max(nbt) if nbt else 0
     o["hasbn"] = bool(nbt)
     flags = [bool(mod.training) for mod in m.modules()]
-    seedflags = [bool(mod.training) for mod in m.seed.modules()]
+    BNT = nn.modules.batchnorm._BatchNorm
+    tfm = lambda fl: "-" if not fl else "T" if all(fl) else "F" if not any(fl) else "mixed"
+    leaves = [mod for mod in m.seed.modules() if not list(mod.children())]
     o["wt"] = bool(m.training)
-    o["st"] = "T" if all(seedflags) else "F" if not any(seedflags) else "mixed"
+    # st: the layers that compute (leaf modules other than BatchNorm); bnst: the BatchNorm leaves; rt: the flag of the
+    # inner model object itself; uni: all modules of the inner model (containers included); flags: the complete vector
+    o["st"] = tfm([bool(mod.training) for mod in leaves if not isinstance(mod, BNT)])
+    o["bnst"] = tfm([bool(mod.training) for mod in leaves if isinstance(mod, BNT)])
+    o["rt"] = bool(m.seed.training)
+    o["uni"] = tfm([bool(mod.training) for mod in m.seed.modules()])
     o["flags"] = ids.of("flags", json.dumps(flags))
     o["rg"] = ids.of("rg", json.dumps([bool(p.requires_grad) for p in m.parameters()]))
     o["theta"] = theta_class(kind, m)
@@ -685,6 +696,25 @@ def apply_c18(kind: str, m, act: Dict[str, Any], xf: torch.Tensor, xp: torch.Ten
             m(xf)
         elif a == "mode":
             m.train(bool(act["v"]))
+        elif a == "seedmode":
+            m.seed.train(bool(act["v"]))
+        elif a == "freezebn":
+            for mod in m.modules():
+                if isinstance(mod, nn.modules.batchnorm._BatchNorm):
+                    mod.eval()
+        elif a == "inspect":
+            # the read-only inspection calls a user sprinkles over a search script
+            str(m)
+            repr(m)
+            names = [n for n, _ in m.named_nas_parameters()] + [n for n, _ in m.named_net_parameters()]
+            list(m.nas_parameters())
+            list(m.net_parameters())
+            if kind == "mps":
+                m.nas_parameters_summary(post_sampling=False)
+                m.nas_parameters_summary(post_sampling=True)
+            if kind == "sn":
+                m.get_total_icv()
+            ret = {"k": "inspect", "a": ids.of("names", json.dumps(names)), "b": 0, "c": 0}
         elif a == "upd":
             o, v = act["o"], int(act["v"])
             if kind == "pit":
